@@ -68,3 +68,33 @@ Fixpoint failing_from {A} (f : A -> bool) (i : nat) (l : list A) : list nat :=
   | x :: r => if f x then failing_from f (S i) r else i :: failing_from f (S i) r
   end.
 Definition failing {A} (f : A -> bool) (l : list A) : list nat := failing_from f 0 l.
+
+(* ---- cases that start from raw labels: factorisation included in the model ---- *)
+From Flox Require Import Factorize.
+
+Record fcase : Type := mkFCase {
+  f_base : rcase;                  (* c_codes / c_ngroups are ignored: recomputed by the model *)
+  f_sort : bool;
+  f_expected : option (list Z);
+  f_labels : list (option Z);
+  f_groups : list Z                (* the labels the implementation returned *)
+}.
+
+Fixpoint list_z_eqb (a b : list Z) : bool :=
+  match a, b with
+  | [], [] => true
+  | x :: a', y :: b' => (x =? y) && list_z_eqb a' b'
+  | _, _ => false
+  end.
+
+Definition with_codes (c : rcase) (gs codes : list Z) : rcase :=
+  mkCase (c_func c) (c_kws c) (c_mc c) (c_fill c) (c_sizes c) (c_k c) (c_grouped c)
+         (length gs) codes (c_vals c) (c_expect c).
+
+Definition fmodel_ok (c : fcase) : bool :=
+  let '(gs, codes) := factorize (f_sort c) (f_expected c) (f_labels c) in
+  list_z_eqb gs (f_groups c) && model_ok (with_codes (f_base c) gs codes).
+
+Definition fspec_ok (c : fcase) : bool :=
+  let '(gs, codes) := factorize (f_sort c) (f_expected c) (f_labels c) in
+  list_z_eqb gs (f_groups c) && spec_ok (with_codes (f_base c) gs codes).
